@@ -3,6 +3,13 @@
 import json, os
 
 CLAIMED = {
+    "C17": ("Coq proof on Sync.v (interleaving semantics of the synchronisation wrapper: invariant, mutual exclusion, re-entrancy, exception safety, no wedge) tied to the source by an AST translator regenerating Gen_sync.v on every run + line-level schedule sweep on real threads",
+            "The fail-closed translator turns synchronized.wrapped_func, the lock-table helpers and the decorator lists of oracle.py / gridsearch.py / oracle_chief.py into an instruction list; C17_source_shape re-proves on every run that it has "
+            "the shape the semantics is about (owner read creates nothing; atomic lock lookup; acquire before set-owner; call inside try; finally clears the owner and THEN releases) and C17_all_decorated that the five operations carry the decorator. "
+            "For every reachable configuration of any number of threads, nesting depth and bodies that return or raise at any point: C17_mutual_exclusion (whoever is in a body holds the lock; bodies never overlap, hence linearizable in "
+            "acquisition order), C17_reentrant_never_waits, C17_exception_releases, C17_no_wedge. When the shape obligation fails, or always as a search, real threads are driven under sys.settrace: A parked before each of its line events in "
+            "the wrapper, B run meanwhile (parked before its nested call for grid), overlap / wedge / locked-after detected.",
+            "Trusted: Coq kernel; the translator; that the IR step granularity is at least as fine as CPython line events (validated by the sweep); distinct thread names; one lock per oracle means different oracles are independent instances.", "DESIGN.md section 6 C17"),
     "C10": ("Coq proof on HB.v (schedule theorem for populate_space, bracket invariant BOK in every reachable state of the lifecycle core instantiated with Hyperband, promoted-is-winner) + differential correspondence with HyperbandOracle",
             "C10_schedule: every trial populate_space issues carries the bracket it is placed in, its round, epochs = ceil(max_epochs/factor^(bracket-round)), initial epoch 0 in round 0 and the previous round's epochs otherwise, "
             "a parent iff round > 0. C10_invariant: in EVERY reachable state (any number of tuners, finishing orders, score ties, failures, retries, reloads) every live or archived bracket satisfies BOK: no round above capacity, ids "
